@@ -3,5 +3,636 @@ import PsaDhcp.Model.Sanitize
 import PsaDhcp.Spec.Inet
 import PsaDhcp.Proofs.Wire
 import PsaDhcp.Proofs.Dhcp
+/-
+Proofs for C14 (client receive path), C16 (client templates, retransmission) and C17 (hook
+environment / resolv.conf sanitising).  Property-level statements: Props/C14, C16, C17.
+-/
 namespace PsaDhcp.Proofs.ClientP
+open PsaDhcp PsaDhcp.Spec
+
+/-! ## C14 — verifier and receive loop -/
+
+def wxid : Waiting → Nat
+  | .offer x | .selectingAck _ _ x | .renewingAck _ _ x | .rebindingAck _ _ x => x
+
+def wexpectedType : Waiting → UInt8
+  | .offer _ => 2
+  | _ => 5
+
+theorem verifyCommon_passed_iff (xid : Nat) (m : Msg) (o : DecodedOptions) :
+    verifyCommon xid m o = .passed ↔
+      (m.xid = xid ∧ m.yiaddr ≠ none ∧ m.yiaddr ≠ some Ip4.zero ∧ m.yiaddr ≠ some Ip4.bcast ∧
+       o.serverIdentifier ≠ none ∧ o.serverIdentifier ≠ some Ip4.zero ∧ o.serverIdentifier ≠ some Ip4.bcast ∧
+       o.routers ≠ [] ∧ 60 ≤ o.leaseSecs) := by
+  unfold verifyCommon
+  split
+  · simp; intro h; contradiction
+  · split
+    · rename_i h1 h2
+      simp only [reduceCtorEq, false_iff]
+      intro h
+      rcases h2 with h2 | h2 | h2 | h2
+      · simp at h2; exact h.2.2.2.2.2.2.2.1 h2
+      · exact h.2.1 h2
+      · exact h.2.2.1 h2
+      · exact h.2.2.2.1 h2
+    · split
+      · rename_i h1 h2 h3
+        simp only [reduceCtorEq, false_iff]
+        intro h
+        rcases h3 with h3 | h3 | h3
+        · exact h.2.2.2.2.1 h3
+        · exact h.2.2.2.2.2.1 h3
+        · exact h.2.2.2.2.2.2.1 h3
+      · split
+        · simp only [reduceCtorEq, false_iff]; intro h; omega
+        · rename_i h1 h2 h3 h4
+          simp only [true_iff]
+          simp only [not_or, List.isEmpty_iff] at h2 h3
+          simp only [Decidable.not_not] at h1
+          refine ⟨h1, h2.2.1, h2.2.2.1, h2.2.2.2, h3.1, h3.2.1, h3.2.2, h2.1, by omega⟩
+
+theorem verifyCommon_ne_nack (xid : Nat) (m : Msg) (o : DecodedOptions) : verifyCommon xid m o ≠ .isNack := by
+  unfold verifyCommon
+  repeat' split
+  all_goals simp
+
+theorem verify_passed_iff (w : Waiting) (m : Msg) (o : DecodedOptions) :
+    w.verify m o = .passed ↔
+      (m.xid = wxid w ∧ o.messageType = wexpectedType w ∧
+       m.yiaddr ≠ none ∧ m.yiaddr ≠ some Ip4.zero ∧ m.yiaddr ≠ some Ip4.bcast ∧
+       o.serverIdentifier ≠ none ∧ o.serverIdentifier ≠ some Ip4.zero ∧ o.serverIdentifier ≠ some Ip4.bcast ∧
+       o.routers ≠ [] ∧ 60 ≤ o.leaseSecs ∧
+       (match w with
+        | .offer _ => True
+        | .selectingAck off ch _ | .renewingAck off ch _ => m.yiaddr = off ∧ o.serverIdentifier = ch
+        | .rebindingAck off _ _ => m.yiaddr = off)) := by
+  cases w with
+  | offer x =>
+    simp only [Waiting.verify, verifyOffer, wxid, wexpectedType, and_true]
+    by_cases h : o.messageType = 2
+    · simp only [h, ne_eq, not_true_eq_false, if_false, verifyCommon_passed_iff, true_and]
+    · simp [h]
+  | selectingAck off ch x =>
+    simp only [Waiting.verify, verifyGenAck, wxid, wexpectedType]
+    by_cases h6 : o.messageType = 6
+    · simp [h6]
+    by_cases h5 : o.messageType = 5
+    · by_cases hy : m.yiaddr = off
+      · by_cases hs : o.serverIdentifier = ch
+        · simp [h5, hy, hs, verifyCommon_passed_iff]
+        · simp [h5, hy, hs]
+      · simp [h5, hy]
+    · simp [h6, h5]
+  | renewingAck off ch x =>
+    simp only [Waiting.verify, verifyGenAck, wxid, wexpectedType]
+    by_cases h6 : o.messageType = 6
+    · simp [h6]
+    by_cases h5 : o.messageType = 5
+    · by_cases hy : m.yiaddr = off
+      · by_cases hs : o.serverIdentifier = ch
+        · simp [h5, hy, hs, verifyCommon_passed_iff]
+        · simp [h5, hy, hs]
+      · simp [h5, hy]
+    · simp [h6, h5]
+  | rebindingAck off ch x =>
+    simp only [Waiting.verify, verifyGenAck, wxid, wexpectedType]
+    by_cases h6 : o.messageType = 6
+    · simp [h6]
+    by_cases h5 : o.messageType = 5
+    · by_cases hy : m.yiaddr = off
+      · simp [h5, hy, verifyCommon_passed_iff]
+      · simp [h5, hy]
+    · simp [h6, h5]
+
+theorem verify_nack_iff (w : Waiting) (m : Msg) (o : DecodedOptions) :
+    w.verify m o = .isNack ↔ (o.messageType = 6 ∧ ∀ x, w ≠ .offer x) := by
+  cases w with
+  | offer x =>
+    simp only [Waiting.verify, verifyOffer]
+    constructor
+    · intro h; split at h
+      · simp at h
+      · exact absurd h (verifyCommon_ne_nack _ _ _)
+    · intro h; exact absurd rfl (h.2 x)
+  | selectingAck off ch x | renewingAck off ch x | rebindingAck off ch x =>
+    simp only [Waiting.verify, verifyGenAck]
+    by_cases h6 : o.messageType = 6
+    · simp [h6]
+    · simp only [h6, if_false, false_and, iff_false]
+      repeat' split
+      all_goals first | simp | exact verifyCommon_ne_nack _ _ _
+
+/-- Normal form of `catchOne`: what it returns in terms of the successful decodings. -/
+theorem catchOne_spec (mac : Bytes) (w : Waiting) (b : Bytes) :
+    (catchOne mac w b = .ok .ignored ∧
+      ¬ ∃ ip udp m, decodeIPv4 b = .ok ip ∧ ip.proto = 0x11 ∧ decodeUDP ip.data = .ok udp ∧ udp.dstPort = 68 ∧
+        decode udp.data = .ok m ∧ m.chaddr = mac ∧ w.verify m (decodeOptions m.options) ≠ .failed) ∨
+    (∃ ip udp m, decodeIPv4 b = .ok ip ∧ ip.proto = 0x11 ∧ decodeUDP ip.data = .ok udp ∧ udp.dstPort = 68 ∧
+        decode udp.data = .ok m ∧ m.chaddr = mac ∧
+        ((w.verify m (decodeOptions m.options) = .passed ∧ catchOne mac w b = .ok (.passed m (decodeOptions m.options))) ∨
+         (w.verify m (decodeOptions m.options) = .isNack ∧ catchOne mac w b = .ok (.nack m (decodeOptions m.options))))) := by
+  unfold catchOne
+  cases h1 : decodeIPv4 b with
+  | error e =>
+    cases e with
+    | reject s => left; simp [pure, Except.pure]
+    | panic s => exact absurd h1 (Proofs.Wire.decoders_never_panic b s).1
+  | ok v4 =>
+    by_cases hp : v4.proto = 0x11
+    · cases h2 : decodeUDP v4.data with
+      | error e =>
+        cases e with
+        | reject s => left; simp [pure, Except.pure, hp, h2]
+        | panic s => exact absurd h2 (Proofs.Wire.decoders_never_panic v4.data s).2.1
+      | ok udp =>
+        by_cases hd : udp.dstPort = 68
+        · cases h3 : decode udp.data with
+          | error e =>
+            cases e with
+            | reject s => left; simp [pure, Except.pure, hp, h2, hd, h3]
+            | panic s => exact absurd h3 (Proofs.Dhcp.decode_never_panics udp.data s)
+          | ok m =>
+            by_cases hc : m.chaddr = mac
+            · cases hv : w.verify m (decodeOptions m.options) with
+              | failed => left; simp [pure, Except.pure, hp, h2, hd, h3, hc, hv]
+              | passed => right; exact ⟨v4, udp, m, rfl, hp, h2, hd, h3, hc, by simp [pure, Except.pure, hp, h2, hd, h3, hc, hv]⟩
+              | isNack => right; exact ⟨v4, udp, m, rfl, hp, h2, hd, h3, hc, by simp [pure, Except.pure, hp, h2, hd, h3, hc, hv]⟩
+            · left; simp [pure, Except.pure, hp, h2, hd, h3, hc]
+        · left; simp [pure, Except.pure, hp, h2, hd]
+    · left; simp [pure, Except.pure, hp]
+
+theorem accept_iff (mac : Bytes) (w : Waiting) (b : Bytes) (m : Msg) (o : DecodedOptions) :
+    catchOne mac w b = .ok (.passed m o) ↔
+      ∃ ip udp, decodeIPv4 b = .ok ip ∧ ip.proto = 0x11 ∧ decodeUDP ip.data = .ok udp ∧ udp.dstPort = 68 ∧
+        decode udp.data = .ok m ∧ m.chaddr = mac ∧ o = decodeOptions m.options ∧ w.verify m o = .passed := by
+  rcases catchOne_spec mac w b with ⟨h, hn⟩ | ⟨ip, udp, m', h1, hp, h2, hd, h3, hc, hv⟩
+  · rw [h]
+    constructor
+    · intro h'; simp at h'
+    · rintro ⟨ip, udp, h1, hp, h2, hd, h3, hc, ho, hv⟩
+      subst ho
+      exact absurd ⟨ip, udp, m, h1, hp, h2, hd, h3, hc, by simp [hv]⟩ hn
+  · constructor
+    · intro h
+      rcases hv with ⟨hv, hr⟩ | ⟨hv, hr⟩
+      · rw [hr] at h
+        injection h with h; injection h with hm ho
+        subst hm; subst ho
+        exact ⟨ip, udp, h1, hp, h2, hd, h3, hc, rfl, hv⟩
+      · rw [hr] at h; injection h with h; cases h
+    · rintro ⟨ip', udp', h1', hp', h2', hd', h3', hc', ho, hv'⟩
+      subst ho
+      rw [h1] at h1'; injection h1' with h1'; subst h1'
+      rw [h2] at h2'; injection h2' with h2'; subst h2'
+      rw [h3] at h3'; injection h3' with h3'; subst h3'
+      rcases hv with ⟨hv, hr⟩ | ⟨hv, hr⟩
+      · exact hr
+      · rw [hv] at hv'; cases hv'
+
+theorem nack_iff (mac : Bytes) (w : Waiting) (b : Bytes) (m : Msg) (o : DecodedOptions) :
+    catchOne mac w b = .ok (.nack m o) ↔
+      ∃ ip udp, decodeIPv4 b = .ok ip ∧ ip.proto = 0x11 ∧ decodeUDP ip.data = .ok udp ∧ udp.dstPort = 68 ∧
+        decode udp.data = .ok m ∧ m.chaddr = mac ∧ o = decodeOptions m.options ∧ w.verify m o = .isNack := by
+  rcases catchOne_spec mac w b with ⟨h, hn⟩ | ⟨ip, udp, m', h1, hp, h2, hd, h3, hc, hv⟩
+  · rw [h]
+    constructor
+    · intro h'; simp at h'
+    · rintro ⟨ip, udp, h1, hp, h2, hd, h3, hc, ho, hv⟩
+      subst ho
+      exact absurd ⟨ip, udp, m, h1, hp, h2, hd, h3, hc, by simp [hv]⟩ hn
+  · constructor
+    · intro h
+      rcases hv with ⟨hv, hr⟩ | ⟨hv, hr⟩
+      · rw [hr] at h; injection h with h; cases h
+      · rw [hr] at h
+        injection h with h; injection h with hm ho
+        subst hm; subst ho
+        exact ⟨ip, udp, h1, hp, h2, hd, h3, hc, rfl, hv⟩
+    · rintro ⟨ip', udp', h1', hp', h2', hd', h3', hc', ho, hv'⟩
+      subst ho
+      rw [h1] at h1'; injection h1' with h1'; subst h1'
+      rw [h2] at h2'; injection h2' with h2'; subst h2'
+      rw [h3] at h3'; injection h3' with h3'; subst h3'
+      rcases hv with ⟨hv, hr⟩ | ⟨hv, hr⟩
+      · rw [hv] at hv'; cases hv'
+      · exact hr
+
+theorem catch_never_panics (mac : Bytes) (w : Waiting) (b : Bytes) (site : String) :
+    catchOne mac w b ≠ .error (.panic site) := by
+  rcases catchOne_spec mac w b with ⟨h, _⟩ | ⟨ip, udp, m', _, _, _, _, _, _, ⟨_, hr⟩ | ⟨_, hr⟩⟩ <;> rw [‹catchOne mac w b = _›] <;> simp
+
+theorem ignored_have_no_effect (mac : Bytes) (w : Waiting) (junk rest : List Bytes)
+    (h : ∀ b ∈ junk, catchOne mac w b = .ok .ignored) : catchReply mac w (junk ++ rest) = catchReply mac w rest := by
+  induction junk with
+  | nil => rfl
+  | cons b js ih =>
+    have hb := h b (by simp)
+    simp only [List.cons_append, catchReply, hb, bind, Except.bind]
+    exact ih (fun b' hb' => h b' (by simp [hb']))
+/-! ## C16 — templates and retransmission -/
+
+theorem nextDelay_ge (d r : Nat) : d ≤ nextDelay d r := by
+  unfold nextDelay; split <;> omega
+
+theorem delays_mono : ∀ (rs : List Nat) (d : Nat),
+    (∀ x ∈ delays d rs, d ≤ x) ∧ List.Pairwise (· ≤ ·) (delays d rs) := by
+  intro rs
+  induction rs with
+  | nil => intro d; simp [delays]
+  | cons r rest ih =>
+    intro d
+    have h0 := nextDelay_ge d r
+    obtain ⟨h1, h2⟩ := ih (nextDelay d r)
+    simp only [delays, List.mem_cons, List.pairwise_cons]
+    refine ⟨?_, h1, h2⟩
+    rintro x (rfl | hx)
+    · exact h0
+    · exact Nat.le_trans h0 (h1 x hx)
+
+theorem retransmit_delays (rs : List Nat) :
+    (∀ d ∈ delays retransBase rs, 700000000 ≤ d) ∧ List.Pairwise (· ≤ ·) (delays retransBase rs) :=
+  delays_mono rs retransBase
+
+theorem unicast_only_renewing (st : ReqState) (mac : Bytes) (xid ident : Nat) (offered server : Ip4) :
+    (template st mac xid ident offered server).2 = (if st = .renewing then some (offered, server) else none) := by
+  cases st <;> simp [template]
+
+theorem client_identifier_shape (mac : Bytes) :
+    (optClientIdentifier mac).code = 61 ∧ (optClientIdentifier mac).data.length = 15 ∧
+    (optClientIdentifier mac).data.head? = some 0xff ∧ (optClientIdentifier mac).data.drop 9 = copyInto 6 mac := by
+  refine ⟨rfl, ?_, rfl, rfl⟩
+  simp [optClientIdentifier, put32, Proofs.Dhcp.copyInto_length]
+
+set_option linter.unusedVariables false in
+theorem retransmission_same_xid (st : ReqState) (mac : Bytes) (xid i₁ i₂ : Nat) (offered server : Ip4)
+    (h₁ : i₁ < 65536) (h₂ : i₂ < 65536) :
+    ((template st mac xid i₁ offered server).1.drop 20) = ((template st mac xid i₂ offered server).1.drop 20) := by
+  cases st <;> simp only [template, clientRequest, Proofs.Wire.assemble_drop20] <;> rfl
+
+/-- The option list of `clientRequest`. -/
+def reqOpts (mac : Bytes) (t : UInt8) (reqIP sid : Option Ip4) : List Opt :=
+  [optType t, optClientIdentifier mac, optMaxMessageSize 1500, optParametersList paramList]
+    ++ (match reqIP with | some r => [optRequestedIP (some r)] | none => [])
+    ++ (match sid with | some s => [optServerIdentifier (some s)] | none => [])
+
+/-- The DHCP message of `clientRequest`, with the `sname` / `file` contents as parameters. -/
+def reqMsg (mac : Bytes) (xid : Nat) (t : UInt8) (src : Ip4) (reqIP sid : Option Ip4) (sname file : Bytes) : Msg :=
+  { op := 1, htype := 1, hops := 0, xid := xid, secs := 0, flags := 0, ciaddr := some src,
+    yiaddr := none, siaddr := none, giaddr := none, chaddr := mac, sname := sname, file := file,
+    cookie := 0x63825363, options := reqOpts mac t reqIP sid }
+
+def reqUdp (m : Msg) : UDP := { srcPort := 68, dstPort := 67, data := m.assemble }
+
+def reqIp (ident : Nat) (src dst : Ip4) (u : UDP) : IPv4 :=
+  { ident := ident, flags := 0, ttl := 64, proto := 0x11, src := some src, dst := some dst, data := u.assemble }
+
+theorem clientRequest_eq (mac : Bytes) (xid ident : Nat) (t : UInt8) (src dst : Ip4) (reqIP sid : Option Ip4) :
+    clientRequest mac xid ident t src dst reqIP sid
+      = (reqIp ident src dst (reqUdp (reqMsg mac xid t src reqIP sid [] []))).assemble := rfl
+
+/-- `copy` into the zeroed 64- and 128-byte fields: an empty `sname` / `file` is the all-zero one. -/
+theorem assemble_pad (mac : Bytes) (xid : Nat) (t : UInt8) (src : Ip4) (reqIP sid : Option Ip4) :
+    (reqMsg mac xid t src reqIP sid [] []).assemble
+      = (reqMsg mac xid t src reqIP sid (List.replicate 64 0) (List.replicate 128 0)).assemble := by
+  have h (n : Nat) : copyInto n [] = copyInto n (List.replicate n (0 : UInt8)) := by
+    rw [Proofs.Dhcp.copyInto_self (List.length_replicate ..)]; simp [copyInto]
+  simp only [Msg.assemble, Msg.header, reqMsg]
+  rw [h 64, h 128]
+  congr 5
+
+theorem reqOpts_ne_nil (mac : Bytes) (t : UInt8) (reqIP sid : Option Ip4) : reqOpts mac t reqIP sid ≠ [] := by
+  simp [reqOpts]
+
+theorem reqOpts_wf (mac : Bytes) (t : UInt8) (reqIP sid : Option Ip4) :
+    ∀ o ∈ reqOpts mac t reqIP sid, o.code ≠ 0 ∧ o.code ≠ 0xff ∧ o.data.length ≤ 15 := by
+  intro o ho
+  have hci : (optClientIdentifier mac).data.length = 15 := by
+    simp [optClientIdentifier, put32, Proofs.Dhcp.copyInto_length]
+  simp only [reqOpts, List.mem_append, List.mem_cons, List.not_mem_nil, or_false] at ho
+  rcases ho with ((rfl | rfl | rfl | rfl) | ho) | ho
+  · exact ⟨by simp [optType], by simp [optType], by simp [optType]⟩
+  · exact ⟨by simp [optClientIdentifier], by simp [optClientIdentifier], by omega⟩
+  · exact ⟨by decide, by decide, by decide⟩
+  · exact ⟨by decide, by decide, by decide⟩
+  · cases reqIP with
+    | none => simp at ho
+    | some r => simp at ho; subst ho; refine ⟨?_, ?_, ?_⟩ <;> simp [optRequestedIP, optIPs, optIpBytes, Ip4.bytes]
+  · cases sid with
+    | none => simp at ho
+    | some r => simp at ho; subst ho; refine ⟨?_, ?_, ?_⟩ <;> simp [optServerIdentifier, optIPs, optIpBytes, Ip4.bytes]
+
+theorem optsWire_length_le : ∀ (os : List Opt), (∀ o ∈ os, o.data.length ≤ 15) → (optsWire os).length ≤ 17 * os.length := by
+  intro os
+  induction os with
+  | nil => intro _; simp [optsWire]
+  | cons o r ih =>
+    intro h
+    have h1 := h o (by simp)
+    have h2 := ih (fun o' ho' => h o' (by simp [ho']))
+    simp only [optsWire, Opt.wire, List.length_append, List.length_cons, List.length_nil]
+    omega
+
+theorem reqOpts_length_le (mac : Bytes) (t : UInt8) (reqIP sid : Option Ip4) : (reqOpts mac t reqIP sid).length ≤ 6 := by
+  cases reqIP <;> cases sid <;> simp [reqOpts]
+
+theorem reqMsg_wf (mac : Bytes) (xid : Nat) (t : UInt8) (src : Ip4) (reqIP sid : Option Ip4)
+    (hm : mac.length ≤ 16) (hx : xid < 4294967296) :
+    Msg.Wf (reqMsg mac xid t src reqIP sid (List.replicate 64 0) (List.replicate 128 0)) where
+  xid := hx
+  secs := by simp [reqMsg]
+  flags := by simp [reqMsg]
+  cookie := by simp [reqMsg]
+  chaddr := hm
+  sname := List.length_replicate ..
+  file := List.length_replicate ..
+  nonempty := reqOpts_ne_nil _ _ _ _
+  opts := fun o ho => by
+    have := reqOpts_wf mac t reqIP sid o ho
+    exact ⟨this.1, this.2.1, by omega⟩
+
+theorem reqMsg_assemble_length (mac : Bytes) (xid : Nat) (t : UInt8) (src : Ip4) (reqIP sid : Option Ip4) (sn fl : Bytes) :
+    (reqMsg mac xid t src reqIP sid sn fl).assemble.length ≤ 343 := by
+  have h1 := optsWire_length_le (reqOpts mac t reqIP sid) (fun o ho => (reqOpts_wf mac t reqIP sid o ho).2.2)
+  have h2 := reqOpts_length_le mac t reqIP sid
+  have h3 : (reqOpts mac t reqIP sid).isEmpty = false := by
+    cases reqIP <;> cases sid <;> rfl
+  simp only [Msg.assemble, Msg.header, reqMsg, h3, Bool.false_eq_true, if_false, List.length_append, Proofs.Dhcp.copyInto_length, put32, put16,
+    Proofs.Wire.optIpBytes_length, List.length_cons, List.length_nil]
+  omega
+
+/-- One template, read back with the stack's decoders. -/
+theorem clientRequest_wire (mac : Bytes) (xid ident : Nat) (t : UInt8) (src dst : Ip4) (reqIP sid : Option Ip4)
+    (hm : mac.length ≤ 16) (hx : xid < 4294967296) (hi : ident < 65536) :
+    ∃ ip udp r, decodeIPv4 (clientRequest mac xid ident t src dst reqIP sid) = .ok ip ∧
+      decodeUDP ip.data = .ok udp ∧ decode udp.data = .ok r ∧
+      IpHeaderVerifies (clientRequest mac xid ident t src dst reqIP sid) ∧
+      UdpVerifies (optIp ip.src) (optIp ip.dst) 0x11 ((clientRequest mac xid ident t src dst reqIP sid).drop 20) ∧
+      ip.proto = 0x11 ∧ ip.ttl = 64 ∧ udp.srcPort = 68 ∧ udp.dstPort = 67 ∧ r.op = 1 ∧ r.htype = 1 ∧ r.xid = xid ∧
+      r.chaddr = mac ∧ ip.src = some src ∧ ip.dst = some dst ∧ r.ciaddr = some src ∧
+      r.options = reqOpts mac t reqIP sid := by
+  rw [clientRequest_eq]
+  have hlen := reqMsg_assemble_length mac xid t src reqIP sid [] []
+  generalize hu : reqUdp (reqMsg mac xid t src reqIP sid [] []) = u at *
+  have hud : u.data = (reqMsg mac xid t src reqIP sid [] []).assemble := by rw [← hu]; rfl
+  have hus : u.srcPort = 68 := by rw [← hu]; rfl
+  have hup : u.dstPort = 67 := by rw [← hu]; rfl
+  generalize hp : reqIp ident src dst u = p
+  have hpd : p.data = u.assemble := by rw [← hp]; rfl
+  have hpp : p.proto = 0x11 := by rw [← hp]; rfl
+  have hl : 20 + 8 + u.data.length ≤ 65535 := by rw [hud]; omega
+  obtain ⟨c, hdec⟩ := Proofs.Wire.decode_assemble_ip p (by rw [← hp]; exact hi) (by rw [← hp]; simp [reqIp])
+    (by rw [hpd, Proofs.Wire.udp_assemble_length]; omega)
+  have hdu := Proofs.Wire.decode_udp_inside_ip p u hpd (by omega) (by omega) hl
+  have hdm : decode u.data = .ok (Spec.Msg.norm (reqMsg mac xid t src reqIP sid (List.replicate 64 0) (List.replicate 128 0))) := by
+    rw [hud, assemble_pad]; exact Proofs.Dhcp.decode_assemble _ (reqMsg_wf mac xid t src reqIP sid hm hx)
+  have hcs := Proofs.Wire.udp_checksum_verifies p u hpd hpp hl
+  refine ⟨_, u, _, hdec, hdu, hdm, Proofs.Wire.ip_checksum_verifies p, ?_, hpp, ?_, hus, hup, rfl, rfl, rfl, rfl, ?_, ?_, rfl, rfl⟩
+  · rw [hpp] at hcs; exact hcs
+  · rw [← hp]; rfl
+  · rw [← hp]; rfl
+  · rw [← hp]; rfl
+
+theorem toUint16_1500 : toUint16 (put16 1500) = 1500 := by decide
+
+theorem toV4_ip (r : Ip4) : toV4 (optIpBytes (some r)) = some r := by
+  simp [toV4, toV4A, chunks4, optIpBytes, Ip4.bytes]
+
+/-- What `DecodeOptions` reads back from the option list of a template. -/
+theorem decodeOptions_reqOpts (mac : Bytes) (t : UInt8) (reqIP sid : Option Ip4) :
+    (decodeOptions (reqOpts mac t reqIP sid)).clientIdentifier = (optClientIdentifier mac).data ∧
+    (decodeOptions (reqOpts mac t reqIP sid)).maxMessageSize = 1500 ∧
+    (decodeOptions (reqOpts mac t reqIP sid)).parametersList = paramList ∧
+    (decodeOptions (reqOpts mac t reqIP sid)).messageType = t ∧
+    (decodeOptions (reqOpts mac t reqIP sid)).requestedIP = reqIP ∧
+    (decodeOptions (reqOpts mac t reqIP sid)).serverIdentifier = sid := by
+  cases reqIP <;> cases sid <;>
+    simp [reqOpts, decodeOptions, applyOpt, optType, optClientIdentifier, optMaxMessageSize, optParametersList,
+      optRequestedIP, optServerIdentifier, optIPs, toUint8, toUint16_1500, toV4_ip]
+
+theorem template_wire (st : ReqState) (mac : Bytes) (xid ident : Nat) (offered server : Ip4)
+    (hm : mac.length ≤ 16) (hx : xid < 4294967296) (hi : ident < 65536) :
+    let pkt := (template st mac xid ident offered server).1
+    ∃ ip udp r, decodeIPv4 pkt = .ok ip ∧ decodeUDP ip.data = .ok udp ∧ decode udp.data = .ok r ∧
+      IpHeaderVerifies pkt ∧ UdpVerifies (optIp ip.src) (optIp ip.dst) 0x11 (pkt.drop 20) ∧
+      ip.proto = 0x11 ∧ ip.ttl = 64 ∧ udp.srcPort = 68 ∧ udp.dstPort = 67 ∧ r.op = 1 ∧ r.htype = 1 ∧ r.xid = xid ∧ r.chaddr = mac ∧
+      (decodeOptions r.options).clientIdentifier = (optClientIdentifier mac).data ∧
+      (decodeOptions r.options).maxMessageSize = 1500 ∧ (decodeOptions r.options).parametersList = paramList ∧
+      (match st with
+       | .discover => (decodeOptions r.options).messageType = 1 ∧ ip.src = some Ip4.zero ∧ ip.dst = some Ip4.bcast ∧
+           r.ciaddr = some Ip4.zero ∧ (decodeOptions r.options).requestedIP = none ∧ (decodeOptions r.options).serverIdentifier = none
+       | .selecting => (decodeOptions r.options).messageType = 3 ∧ ip.src = some Ip4.zero ∧ ip.dst = some Ip4.bcast ∧
+           r.ciaddr = some Ip4.zero ∧ (decodeOptions r.options).requestedIP = some offered ∧
+           (decodeOptions r.options).serverIdentifier = some server
+       | .renewing => (decodeOptions r.options).messageType = 3 ∧ ip.src = some offered ∧ ip.dst = some server ∧
+           r.ciaddr = some offered ∧ (decodeOptions r.options).requestedIP = none ∧ (decodeOptions r.options).serverIdentifier = none
+       | .rebinding => (decodeOptions r.options).messageType = 3 ∧ ip.src = some offered ∧ ip.dst = some Ip4.bcast ∧
+           r.ciaddr = some offered ∧ (decodeOptions r.options).requestedIP = none ∧ (decodeOptions r.options).serverIdentifier = none) := by
+  intro pkt
+  cases st
+  all_goals
+    simp only [pkt, template]
+    obtain ⟨ip, udp, r, h1, h2, h3, h4, h5, h6, h7, h8, h9, h10, h11, h12, h13, h14, h15, h16, h17⟩ :=
+      clientRequest_wire mac xid ident _ _ _ _ _ hm hx hi
+    obtain ⟨o1, o2, o3, o4, o5, o6⟩ := decodeOptions_reqOpts mac _ _ _
+    rw [← h17] at o1 o2 o3 o4 o5 o6
+    exact ⟨ip, udp, r, h1, h2, h3, h4, h5, h6, h7, h8, h9, h10, h11, h12, h13, o1, o2, o3, o4, h14, h15, h16, o5, o6⟩
+/-! ## C17 — sanitising -/
+
+theorem sanitize_cons (f : Nat) (b : UInt8) (rest : Bytes) :
+    sanitize (f + 1) (b :: rest) =
+      if (runeWidth (b :: rest)).1 = 1 ∧ (runeWidth (b :: rest)).2 = true ∧ envGood b = true then b :: sanitize f rest
+      else 0x5F :: sanitize f ((b :: rest).drop (runeWidth (b :: rest)).1) := by
+  simp only [sanitize]
+
+theorem envSafe_5F : envSafe 0x5F = true := by decide
+
+theorem sanitize_safe : ∀ (f : Nat) (v : Bytes), ∀ b ∈ sanitize f v, envSafe b = true := by
+  intro f
+  induction f with
+  | zero => intro v b hb; simp [sanitize] at hb
+  | succ f ih =>
+    intro v b hb
+    cases v with
+    | nil => simp [sanitize] at hb
+    | cons c rest =>
+      rw [sanitize_cons] at hb
+      split at hb
+      · rename_i hc
+        rcases List.mem_cons.1 hb with rfl | hb
+        · simp [envSafe, hc.2.2]
+        · exact ih _ _ hb
+      · rcases List.mem_cons.1 hb with rfl | hb
+        · exact envSafe_5F
+        · exact ih _ _ hb
+
+theorem env_value_safe (val : Bytes) : ∀ b ∈ sanitize val.length val, envSafe b = true :=
+  sanitize_safe _ _
+
+theorem runeWidth_pos (b : UInt8) (rest : Bytes) : 1 ≤ (runeWidth (b :: rest)).1 := by
+  unfold runeWidth
+  simp only
+  repeat' split
+  all_goals simp
+
+theorem sanitize_len_le : ∀ (f : Nat) (v : Bytes), (sanitize f v).length ≤ v.length := by
+  intro f
+  induction f with
+  | zero => intro v; simp [sanitize]
+  | succ f ih =>
+    intro v
+    cases v with
+    | nil => simp [sanitize]
+    | cons c rest =>
+      rw [sanitize_cons]
+      split
+      · simp only [List.length_cons]; have := ih rest; omega
+      · have h1 := runeWidth_pos c rest
+        have h2 := ih ((c :: rest).drop (runeWidth (c :: rest)).1)
+        simp only [List.length_cons, List.length_drop] at h2 ⊢
+        omega
+
+theorem runeWidth_ascii (b : UInt8) (rest : Bytes) (h : b.toNat < 0x80) : runeWidth (b :: rest) = (1, true) := by
+  simp [runeWidth, h]
+
+theorem sanitize_len_ascii : ∀ (f : Nat) (v : Bytes), v.length ≤ f → v.all (fun b => b.toNat < 0x80) = true →
+    (sanitize f v).length = v.length := by
+  intro f
+  induction f with
+  | zero => intro v hv _; cases v <;> simp_all [sanitize]
+  | succ f ih =>
+    intro v hv ha
+    cases v with
+    | nil => simp [sanitize]
+    | cons c rest =>
+      simp only [List.all_cons, Bool.and_eq_true, decide_eq_true_eq] at ha
+      simp only [List.length_cons] at hv
+      rw [sanitize_cons, runeWidth_ascii c rest ha.1]
+      split
+      · simp only [List.length_cons]; rw [ih rest (by omega) ha.2]
+      · simp only [List.length_cons, List.drop_succ_cons, List.drop_zero]; rw [ih rest (by omega) ha.2]
+
+theorem sanitize_length (val : Bytes) : (sanitize val.length val).length ≤ val.length ∧
+    (val.all (fun b => b.toNat < 0x80) → (sanitize val.length val).length = val.length) :=
+  ⟨sanitize_len_le _ _, fun h => sanitize_len_ascii _ _ (Nat.le_refl _) h⟩
+
+theorem env_entries_safe (c : Ifconfig) :
+    ∀ e ∈ dumpScriptConf c, ∃ key v, e = str "PSA_DHCPC_" ++ str key ++ [0x3D] ++ v ∧ (∀ b ∈ v, envSafe b = true) ∧
+      key ∈ ["IPV4_ROUTER", "IPV4_ADDRESS", "NETMASK", "DOMAIN_NAME", "DNS_LIST", "MTU", "LEASE_SEC"] := by
+  intro e he
+  simp only [dumpScriptConf, List.mem_cons, List.not_mem_nil, or_false] at he
+  rcases he with rfl | rfl | rfl | rfl | rfl | rfl | rfl
+  all_goals exact ⟨_, _, rfl, env_value_safe _, by simp⟩
+
+/-! resolv.conf -/
+
+def RInv (r : ResolvIn) : Prop :=
+  (r.search = [] ∨ allIn hostChar r.search = true) ∧ ∀ ns ∈ r.nameservers, allIn numChar ns = true
+
+theorem scan_step_inv (acc : ResolvIn) (e : Bytes) (h : RInv acc) :
+    RInv (match splitEq e with
+    | none => acc
+    | some (k, v) =>
+      let acc := if k = str "PSA_DHCPC_DOMAIN_NAME" ∧ allIn hostChar v then { acc with search := v } else acc
+      if k = str "PSA_DHCPC_DNS_LIST" ∧ ¬ v.isEmpty then
+        { acc with nameservers := acc.nameservers ++ (splitComma v).filter (allIn numChar) }
+      else acc) := by
+  cases splitEq e with
+  | none => exact h
+  | some p =>
+    obtain ⟨k, v⟩ := p
+    simp only
+    have h1 : RInv (if k = str "PSA_DHCPC_DOMAIN_NAME" ∧ allIn hostChar v then { acc with search := v } else acc) := by
+      split
+      · rename_i hc; exact ⟨Or.inr hc.2, h.2⟩
+      · exact h
+    generalize (if k = str "PSA_DHCPC_DOMAIN_NAME" ∧ allIn hostChar v then { acc with search := v } else acc) = acc' at h1
+    split
+    · refine ⟨h1.1, ?_⟩
+      intro ns hns
+      simp only [List.mem_append, List.mem_filter] at hns
+      rcases hns with hns | hns
+      · exact h1.2 ns hns
+      · exact hns.2
+    · exact h1
+
+theorem foldl_inv {α β : Type} (P : β → Prop) (f : β → α → β) (hf : ∀ b a, P b → P (f b a)) :
+    ∀ (l : List α) (b : β), P b → P (l.foldl f b) := by
+  intro l
+  induction l with
+  | nil => intro b hb; exact hb
+  | cons a l ih => intro b hb; exact ih _ (hf b a hb)
+
+theorem scanEnv_inv (env : List Bytes) : RInv (scanEnv env) := by
+  unfold scanEnv
+  apply foldl_inv RInv
+  · intro b a hb; exact scan_step_inv b a hb
+  · exact ⟨Or.inl rfl, by intro ns hns; simp at hns⟩
+
+theorem resolv_grammar (env : List Bytes) (out : Bytes) (h : resolvRun env = some out) :
+    ∃ search nss, nss ≠ [] ∧ (search = [] ∨ allIn hostChar search = true) ∧ (∀ ns ∈ nss, allIn numChar ns = true) ∧
+      out = str "# written by psa-dhcpc\n"
+        ++ (if search = [] then [] else str "search " ++ search ++ [0x0A])
+        ++ (nss.map fun ns => str "nameserver " ++ ns ++ [0x0A]).flatten := by
+  have hinv := scanEnv_inv env
+  unfold resolvRun renderResolv at h
+  split at h
+  · cases h
+  · rename_i hne
+    injection h with h
+    refine ⟨(scanEnv env).search, (scanEnv env).nameservers, ?_, hinv.1, hinv.2, ?_⟩
+    · simpa [List.isEmpty_iff] using hne
+    · rw [← h]
+      simp only [List.isEmpty_iff]
+
+theorem untouched_iff_no_nameserver (env : List Bytes) :
+    resolvRun env = none ↔ (scanEnv env).nameservers = [] := by
+  unfold resolvRun renderResolv
+  split
+  · rename_i h; simpa [List.isEmpty_iff] using h
+  · rename_i h; simpa [List.isEmpty_iff] using h
+
+set_option linter.unusedVariables false in
+theorem ack_to_file (m : Msg) (o : DecodedOptions) (c : Ifconfig) (route : Bool) (other : List Bytes)
+    (hc : buildNetconfig m o = some c) (out : Bytes)
+    (h : resolvRun (other ++ dumpScriptConf (filterNetconfig route c)) = some out) :
+    ∃ search nss, nss ≠ [] ∧ (search = [] ∨ allIn hostChar search = true) ∧ (∀ ns ∈ nss, allIn numChar ns = true) ∧
+      out = str "# written by psa-dhcpc\n"
+        ++ (if search = [] then [] else str "search " ++ search ++ [0x0A])
+        ++ (nss.map fun ns => str "nameserver " ++ ns ++ [0x0A]).flatten :=
+  resolv_grammar _ out h
+
+theorem envSafe_nat (b : UInt8) (h : envSafe b = true) :
+    (0x61 ≤ b.toNat ∧ b.toNat ≤ 0x7A) ∨ (0x41 ≤ b.toNat ∧ b.toNat ≤ 0x5A) ∨ (0x30 ≤ b.toNat ∧ b.toNat ≤ 0x39) ∨
+    b.toNat = 0x2C ∨ b.toNat = 0x2E ∨ b.toNat = 0x2D ∨ b.toNat = 0x5F := by
+  simp only [envSafe, envGood, isAlnum, Bool.or_eq_true, Bool.and_eq_true, decide_eq_true_eq, ← UInt8.toNat_inj] at h
+  simp at h
+  omega
+
+theorem safe_excludes_metacharacters (b : UInt8) (h : envSafe b = true) :
+    b ≠ 0x0A ∧ b ≠ 0x20 ∧ b ≠ 0x3D ∧ b ≠ 0x00 ∧ b ≠ 0x22 ∧ b ≠ 0x27 ∧ b ≠ 0x24 ∧ b ≠ 0x60 ∧ b ≠ 0x3B ∧ b ≠ 0x26 ∧
+    b ≠ 0x7C ∧ b ≠ 0x3C ∧ b ≠ 0x3E ∧ b ≠ 0x5C ∧ b ≠ 0x28 ∧ b ≠ 0x29 ∧ b.toNat < 0x80 := by
+  have hn := envSafe_nat b h
+  simp only [ne_eq, ← UInt8.toNat_inj]
+  simp
+  omega
+
+theorem hostChar_nat (b : UInt8) (h : hostChar b = true ∨ numChar b = true) :
+    (0x61 ≤ b.toNat ∧ b.toNat ≤ 0x7A) ∨ (0x41 ≤ b.toNat ∧ b.toNat ≤ 0x5A) ∨ (0x30 ≤ b.toNat ∧ b.toNat ≤ 0x39) ∨
+    b.toNat = 0x2E ∨ b.toNat = 0x2D := by
+  simp only [hostChar, numChar, isAlnum, Bool.or_eq_true, Bool.and_eq_true, decide_eq_true_eq, ← UInt8.toNat_inj] at h
+  simp at h
+  omega
+
+theorem allIn_mem {cls : UInt8 → Bool} {s : Bytes} (h : allIn cls s = true) : ∀ b ∈ s, cls b = true := by
+  simp only [allIn, Bool.and_eq_true, List.all_eq_true] at h
+  exact h.2
+
+theorem tokens_have_no_separators (s : Bytes) (h : allIn hostChar s = true ∨ allIn numChar s = true) :
+    ∀ b ∈ s, b ≠ 0x0A ∧ b ≠ 0x20 ∧ b ≠ 0x3D ∧ b ≠ 0x00 ∧ b ≠ 0x09 ∧ b ≠ 0x0D := by
+  intro b hb
+  have hn := hostChar_nat b (h.imp (fun h => allIn_mem h b hb) (fun h => allIn_mem h b hb))
+  simp only [ne_eq, ← UInt8.toNat_inj]
+  simp
+  omega
 end PsaDhcp.Proofs.ClientP
